@@ -110,7 +110,26 @@ func (y *Sys) multipartUpload(parts []part) (int, *uploadResp, error) {
 	if err != nil {
 		return resp.StatusCode, nil, err
 	}
-	if resp.StatusCode != 200 {
+	if resp.StatusCode == http.StatusSeeOther {
+		// "status may be a 200 or a 303 to this data"
+		loc, err := resp.Location()
+		if err != nil {
+			return 303, nil, fmt.Errorf("303 without usable Location: %v", err)
+		}
+		r2, err := http.NewRequest("GET", loc.String(), nil)
+		if err != nil {
+			return 303, nil, err
+		}
+		resp2, err := y.S.Do(r2)
+		if err != nil {
+			return 303, nil, err
+		}
+		body, err = io.ReadAll(resp2.Body)
+		resp2.Body.Close()
+		if err != nil || resp2.StatusCode != 200 {
+			return resp2.StatusCode, nil, fmt.Errorf("following the 303: status %d, %v", resp2.StatusCode, err)
+		}
+	} else if resp.StatusCode != 200 {
 		return resp.StatusCode, nil, fmt.Errorf("body %.200q", body)
 	}
 	var ur uploadResp
